@@ -16,4 +16,5 @@ Extraction "../ocaml/gen/ModelC17.ml"
   canon2 canon4 canon12 R12mul R12pow R4pow
   modn_add modn_sub from_hash_impl from_hash_spec fh_quot
   sm9_hash1_impl sm9_hash1_spec sm9_hash2_impl sm9_hash2_spec
-  sm9_sig_from_der sm9_sig_decode sm9_ct_from_der sm9_ct_decode sig_to_der ct_to_der g1_octets_ok.
+  sm9_sig_from_der sm9_sig_decode sm9_ct_from_der sm9_ct_decode sig_to_der ct_to_der g1_octets_ok
+  I2equ I2is_one I2is_zero I4equ I4is_zero I12equ.
